@@ -181,11 +181,11 @@ class State:
             k = self.const.get(c)
             out.append((l, ren[c], k, tuple(sorted(self.neq.get(c, ()))) if k is None else ()))
         obs = []
-        for k2 in sorted(self.obs):
+        for k2 in sorted(self.obs, key=repr):
             v = self.obs[k2]
             if isinstance(v, tuple) and len(v) == 2 and v[0] == 'cls':
                 v = ('cls', ren.get(v[1], -1))
-            obs.append((k2, v))
+            obs.append((repr(k2), repr(v)))
         return (tuple(out), tuple(sorted(self.refs.items())), tuple(obs))
 
 
@@ -306,7 +306,7 @@ class Interp:
         pass
 
     def key_of(self, st):
-        return tuple(sorted((k, v if not (isinstance(v, tuple) and v and v[0] == 'cls') else 'cls') for k, v in st.obs.items()))
+        return tuple(sorted(((repr(k), repr(v) if not (isinstance(v, tuple) and v and v[0] == 'cls') else 'cls') for k, v in st.obs.items())))
 
     def untracked(self, loc):
         return False
